@@ -37,11 +37,19 @@ impl<T: Copy> Delay<T> {
     /// Change the delay.
     pub fn set_delay(&mut self, delay: usize) {
         if delay > self.delay {
-            self.current_delay = delay - self.delay;
+            // Longer delay: first cancel against samples still to be skipped,
+            // the rest is emitted as extra zeroes (on top of any still owed).
+            let more = delay - self.delay;
+            let cancel = std::cmp::min(self.skip, more);
+            self.skip -= cancel;
+            self.current_delay += more - cancel;
         } else {
-            let cdskip = std::cmp::min(self.current_delay, delay);
-            self.current_delay -= cdskip;
-            self.skip = (self.delay - delay) - cdskip;
+            // Shorter delay: first cancel against zeroes still owed, the rest
+            // is skipped from the input (on top of any skip still pending).
+            let less = self.delay - delay;
+            let cancel = std::cmp::min(self.current_delay, less);
+            self.current_delay -= cancel;
+            self.skip += less - cancel;
         }
         self.delay = delay;
     }
